@@ -28,7 +28,7 @@ static void tr(const char *fmt, ...);
 static atomic_int viol; static char vmsg[300];
 static void fail(const char *m, long a, long b, long c){ if(!atomic_exchange(&viol,1)) snprintf(vmsg,sizeof vmsg,"%s %ld %ld %ld",m,a,b,c); }
 static char qkey;
-struct S { int kind, scen; dispatch_source_t ds; dispatch_queue_t q; _Atomic int ev_runs, ev_inside, cancel_runs, cancel_returned_on_q, ev_after_qcancel, ev_after_return, ev_after_ch; int p[2]; int from_handler_done; };
+struct S { int kind, scen; dispatch_source_t ds; dispatch_queue_t q; _Atomic int ev_runs, ev_inside, cancel_runs, cancel_returned_on_q, ev_after_qcancel, ev_after_return, ev_after_ch; int p[2]; int from_handler_done; _Atomic int cw_done; };
 #include <stdarg.h>
 static pthread_mutex_t trm = PTHREAD_MUTEX_INITIALIZER;
 static void tr(const char *fmt, ...){ va_list ap; va_start(ap,fmt); pthread_mutex_lock(&trm); if(trlen+256<TRMAX){ trlen+=(unsigned long)vsnprintf(trbuf+trlen,256,fmt,ap); } pthread_mutex_unlock(&trm); va_end(ap); }
@@ -51,6 +51,7 @@ static void ch(void *c){ struct S *s=c; if(atomic_load(&s->ev_inside)) fail("can
   if(dispatch_get_specific(&qkey)!=s) fail("cancel handler not on the target queue: kind/scenario",s->kind,s->scen,0);
   if(atomic_fetch_add(&s->cancel_runs,1)) fail("cancel handler ran more than once: kind/scenario",s->kind,s->scen,0); }
 static void regh(void *c){ struct S *s=c; if(s->scen==2){ dispatch_source_cancel(s->ds); atomic_store(&s->cancel_returned_on_q,1); } }
+static void *cw_thread(void *c){ struct S *s=c; dispatch_source_cancel_and_wait(s->ds); atomic_store(&s->cw_done,1); return 0; }
 static void one(int kind, int scen){ struct S *s=calloc(1,sizeof *s); s->kind=kind; s->scen=scen; s->q=dispatch_queue_create("tq",NULL); dispatch_queue_set_specific(s->q,&qkey,s,NULL);
   if(pipe(s->p)){} 
   switch(kind){ case 0: s->ds=dispatch_source_create(DISPATCH_SOURCE_TYPE_DATA_ADD,0,0,s->q); break;
@@ -58,8 +59,17 @@ static void one(int kind, int scen){ struct S *s=calloc(1,sizeof *s); s->kind=ki
     case 2: s->ds=dispatch_source_create(DISPATCH_SOURCE_TYPE_READ,(uintptr_t)s->p[0],0,s->q); break;
     case 3: s->ds=dispatch_source_create(DISPATCH_SOURCE_TYPE_WRITE,(uintptr_t)s->p[1],0,s->q); break;
     default: s->ds=dispatch_source_create(DISPATCH_SOURCE_TYPE_SIGNAL,SIGUSR2,0,s->q); break; }
-  dispatch_source_set_event_handler_f(s->ds,ev); if(scen!=6) dispatch_source_set_cancel_handler_f(s->ds,ch); /* cancel_and_wait requires a source without cancel handler */ dispatch_set_context(s->ds,s);
+  dispatch_source_set_event_handler_f(s->ds,ev); if(scen<6) dispatch_source_set_cancel_handler_f(s->ds,ch); /* cancel_and_wait requires a source without cancel handler */ dispatch_set_context(s->ds,s);
   if(scen==2) dispatch_source_set_registration_handler_f(s->ds,regh);
+  if(scen==7 || scen==8){ // never activated: (7) cancel, then cancel_and_wait; (8) cancel_and_wait alone. Both return and leave the cancelled, never-fired source
+    if(scen==7) dispatch_source_cancel(s->ds);
+    pthread_t t; pthread_create(&t,0,cw_thread,s); for(int w=0; w<5000 && !atomic_load(&s->cw_done); w++) usleep(1000);
+    if(!atomic_load(&s->cw_done)){ fail("dispatch_source_cancel_and_wait on a source that was never activated did not return within 5 s: kind/cancelled-before",kind,scen==7,0); return; }
+    pthread_join(t,0);
+    if(!dispatch_source_testcancel(s->ds)) fail("testcancel not set after cancel_and_wait on a never-activated source: kind/scenario",kind,scen,0);
+    for(int i=0;i<3;i++) fire(s); usleep(3000); dispatch_sync(s->q,^{});
+    if(atomic_load(&s->ev_runs)) fail("event handler ran although the source was cancelled before activation (cancel_and_wait): kind/scenario",kind,scen,0);
+    dispatch_release(s->ds); close(s->p[0]); close(s->p[1]); dispatch_release(s->q); return; }
   if(scen==1){ dispatch_source_cancel(s->ds); }                       // before activation
   if(scen==2){ fire(s); if(kind==0) fire(s); }                          // an event is pending when the registration handler runs
   dispatch_activate(s->ds);
@@ -132,7 +142,7 @@ static void quiet_cancel(int trials){ _dispatch_verif_yield_cb=q_ycb;
 int main(int argc,char**argv){ seed=argc>1?strtoull(argv[1],0,0):1; int rounds=argc>2?atoi(argv[2]):3; signal(SIGUSR2,SIG_IGN); signal(SIGPIPE,SIG_IGN); long n=0;
   trbuf=malloc(TRMAX); _dispatch_verif_source_cb=srccb;
   det_phase=1; for(int v=0; v<16 && !viol; v++){ det(v); n++; } for(int v=0; v<16 && !viol; v++){ det_timer(v); n++; } det_phase=0;
-  for(int r=0;r<rounds && !viol;r++) for(int kind=0;kind<5 && !viol;kind++) for(int scen=1;scen<=6 && !viol;scen++){
+  for(int r=0;r<rounds && !viol;r++) for(int kind=0;kind<5 && !viol;kind++) for(int scen=1;scen<=8 && !viol;scen++){
     if(kind==1 && scen==2) continue;      // a timer is armed only after its registration handler ran: nothing can be pending
     if(kind==3 && (scen==5||scen==6)) {}  // a write source on an empty pipe fires continuously: fine
     one(kind,scen); n++; }
